@@ -133,7 +133,7 @@ PROPS = {
                         "names are injected at lookup level, not through multicast"],
     },
     "C15": {
-        "proof_files": ["Proofs/LockFacts.v", "Proofs/LastModFacts.v", "Proofs/RmwFacts.v", "Properties/C15_instance.v"],
+        "proof_files": ["Proofs/LockFacts.v", "Proofs/LastModFacts.v", "Proofs/RmwFacts.v", "Proofs/RmwEmbed.v", "Properties/C15_instance.v"],
         "race_build": True,
         "trusted_extra": ["translator harness/locks_extract.go (Go AST -> Gen/AccessTable.v) and its configuration of shared types / guarded fields",
                           "Go race detector (ThreadSanitizer runtime) for the stress half"],
